@@ -1,4 +1,5 @@
 import Verif.Model.Cognates
+import Verif.Model.Partial
 import Verif.Driver.Util
 namespace Verif.Driver
 open Verif.Cognates
@@ -13,6 +14,19 @@ def handleCog (fs : List (List String)) : Option String :=
       | _ => ([], [])
     let out := glue (nat! k) ps
     some ("G " ++ " ".intercalate (out.map fun c => ",".intercalate (c.map fun e => s!"{e.1}={e.2}")))
+  | [["pglue"], [k], parts] =>
+    let ps : List (List Nat × List Nat) := parts.map fun s =>
+      match s.splitOn ":" with
+      | [a, b] => ((a.splitOn ",").filter (· ≠ "") |>.map nat!, (b.splitOn ",").filter (· ≠ "") |>.map nat!)
+      | _ => ([], [])
+    let out := Verif.Partial.pglue (nat! k) ps
+    some ("G " ++ " ".intercalate (out.map fun c => ",".intercalate (c.map fun e => s!"{e.1}={e.2}")))
+  | [["strict"], rows] =>
+    let rs : List (Nat × List Nat) := rows.map fun s =>
+      match s.splitOn ":" with
+      | [a, b] => (nat! a, (b.splitOn ",").filter (· ≠ "") |>.map nat!)
+      | _ => (0, [])
+    some ("S " ++ " ".intercalate ((Verif.Partial.strictIds rs).map fun e => s!"{e.1}={e.2}"))
   | _ => none
 
 end Verif.Driver
